@@ -90,7 +90,7 @@ func c03Prop(t *testing.T, r *hx.Run) func(c c03Case) hx.Verdict {
 		if c.RemoteHold != nil {
 			rhold = *c.RemoteHold
 		}
-		v.Class += fmt.Sprintf("/hold0=%v", p.Hold == 0 || rhold == 0)
+		v.Class += fmt.Sprintf("/hold0=%v/slowhandler=%v", p.Hold == 0 || rhold == 0, c.SleepUpdNs >= int64(time.Second))
 		p.Plugin.HandlerNotifOn = c.HandlerNotifOn
 		p.Plugin.HandlerNotif = c.HandlerNotif
 		p.Plugin.SleepNs = map[string]int64{"upd": c.SleepUpdNs, "est": c.SleepEstNs}
@@ -144,7 +144,14 @@ func c03Prop(t *testing.T, r *hx.Run) func(c c03Case) hx.Verdict {
 			if c.End == "fin" {
 				conn.RemoteClose()
 			}
-			w.Advance(time.Duration(c.SleepEstNs) + time.Duration(len(c.Msgs)+1)*time.Duration(c.SleepUpdNs) + time.Millisecond)
+			if c.SleepUpdNs >= int64(time.Second) {
+				// a handler slower than the hold time: stop observing right after
+				// the last call returns (the scripted remote then stays silent, so
+				// a hold time later the session would end legitimately)
+				w.Advance(time.Duration(c.SleepEstNs) + time.Duration(len(sent))*time.Duration(c.SleepUpdNs) + time.Millisecond)
+			} else {
+				w.Advance(time.Duration(c.SleepEstNs) + time.Duration(len(c.Msgs)+1)*time.Duration(c.SleepUpdNs) + time.Millisecond)
+			}
 
 			evs := w.Rec.Events()[evBase:]
 			var got [][]byte
@@ -299,6 +306,11 @@ func genC03(rt *rapid.T) c03Case {
 	case 2:
 		h, rh := pick(rt, "lhold", 3, 9, 30), pick[uint16](rt, "rhold", 3, 6, 180)
 		c.LocalHold, c.RemoteHold = &h, &rh
+		if rapid.IntRange(0, 2).Draw(rt, "slowhandler") == 0 {
+			// every handler call outlasts the negotiated hold time; the
+			// messages are all in the socket already, so nothing is overdue
+			c.SleepUpdNs = int64(min(h, int(rh)))*int64(time.Second) + int64(500*time.Millisecond)
+		}
 	}
 	return c
 }
